@@ -62,7 +62,7 @@ func c32Excluded(id string) bool {
 var c32NameIdent = true
 
 func c32Same(a, b hCol) bool {
-	return a.UID == b.UID || (c32NameIdent && a.Name == b.Name && a.Type == b.Type)
+	return a.UID == b.UID || (c32NameIdent && ((a.Name == b.Name && a.Type == b.Type) || (a.Tag != 0 && a.Tag == b.Tag)))
 }
 
 func c32Either(f func(from, to *hTable) bool, from, to *hTable) bool {
@@ -127,15 +127,17 @@ func c32ShapeColOrder(from, to *hTable) bool {
 	return !vsql.EqualStrings(want, to.colNames())
 }
 
-// c32ShapeRenamedNull: a column was renamed between the commits and some row's value in it
-// goes from non-NULL to NULL.
+// c32ShapeRenamedNull: a column that dolt identifies across the pair (a rename, or a drop plus
+// a re-add that takes over the dropped column's tag, possibly with another type and a later
+// rename) has different names at the two commits and some row's value in it goes from non-NULL
+// to NULL.
 func c32ShapeRenamedNull(from, to *hTable) bool {
 	if from == nil || to == nil {
 		return false
 	}
 	for i, fc := range from.Cols {
 		for j, tc := range to.Cols {
-			if fc.UID != tc.UID || fc.Name == tc.Name {
+			if !c32Same(fc, tc) || fc.Name == tc.Name {
 				continue
 			}
 			for k, fr := range from.Rows {
